@@ -1128,7 +1128,7 @@ func (eng *Engine) pureIfaceMethod(c *ssa.CallCommon) bool {
 		return false
 	}
 	for _, k := range []string{c.Method.FullName(), "(" + typeString(c.Value.Type()) + ")." + c.Method.Name()} {
-		if con := eng.cs.lookup(k); con != nil && con.Pure {
+		if con := eng.cs.lookup(k); con != nil && con.Pure && !strings.HasSuffix(con.File, ".spec") {
 			return true
 		}
 	}
